@@ -62,8 +62,8 @@ def zl(xs) -> str:
 def to_coq(op: dict, it: Interner, world: dict) -> Optional[str]:
     """Gallina term for one op; None for read-only ops outside the model's vocabulary."""
     k = op['op']
-    if k in READ_ONLY_OPS:
-        return None
+    if k in READ_ONLY_OPS or k not in MODEL_OPS:
+        return None      # read-only ops, and unknown op names of the malformed stream (the runner answers BadRequest, no change)
     g = it.get
     if k == 'create_batch':
         members = world['billing_projects'].get(op['bp'])
@@ -234,7 +234,10 @@ def run_model(ctx, histories: List[List[dict]], world: Optional[dict] = None, sh
         it = Interner()
         terms, idx = [], []
         for i, op in enumerate(h):
-            t = to_coq(op, it, world)
+            try:
+                t = to_coq(op, it, world)
+            except (KeyError, TypeError, ValueError, AttributeError):
+                t = None     # malformed op (missing / ill-typed field): the runner rejects it before touching the database
             if t is not None:
                 terms.append('(' + t + ')')
                 idx.append(i)
